@@ -67,6 +67,13 @@ pub fn qualified(rng: &mut Rng, min: usize, max: usize) -> Vec<String> {
     (0..n).map(|_| ident(rng)).collect()
 }
 
+/// qualified names that mean something in the Android / Java world (a maintainer's special cases key on such names)
+pub const REAL_WORLD_IMPORTS: &[&str] = &[
+    "android.os.IBinder", "android.os.ParcelFileDescriptor", "android.os.ParcelableHolder", "java.os.FileDescriptor", "java.io.FileDescriptor", "android.os.Bundle",
+    "android.os.PersistableBundle", "android.os.Parcelable", "android.os.IInterface", "android.os.IBinder.DeathRecipient", "android.content.Intent", "android.net.Uri",
+    "java.util.ArrayList", "java.util.HashMap", "java.lang.Integer", "java.lang.Object", "android.os.ParcelFileDescriptor.AutoCloseInputStream",
+];
+
 pub const PRIMS: &[&str] = &["byte", "short", "int", "long", "float", "double", "boolean", "char"];
 
 // ---------------------------------------------------------------------------
@@ -82,12 +89,16 @@ pub fn integer_lit(rng: &mut Rng) -> String {
         1 => format!("{}", rng.below(10)),
         2 => format!("{}", rng.below(100000)),
         3 => format!("00{}", rng.below(100)),
-        4 => "4294967295".into(),
+        4 => rng.pick_str(&["4294967295", "16777214", "16777213", "16777215"]).to_string(),
         _ => format!("{}", rng.next_u64() % 4294967296),
     }
 }
 
 pub fn float_lit(rng: &mut Rng) -> String {
+    if rng.chance(1, 12) {
+        // FLOAT is `[+-]?(\d*\.)?\d+f?` with Unicode \d: digits of other scripts are part of the language
+        return rng.pick_str(&["٣", "１.５", "-٣f", "٠.٥", "+３", "１２３"]).to_string();
+    }
     match rng.below(8) {
         0 => format!("-{}", rng.below(1000)),
         1 => format!("+{}", rng.below(1000)),
@@ -249,6 +260,14 @@ pub fn leaf_ty(rng: &mut Rng, customs: &[Vec<String>]) -> Ty {
         5 => Ty::List(None),
         6 => Ty::Map(None),
         _ => {
+            if rng.chance(1, 8) {
+                // the Android built-ins, simple and qualified, and other names the Android world knows
+                let n = rng.pick_str(&[
+                    "IBinder", "ParcelFileDescriptor", "FileDescriptor", "ParcelableHolder", "android.os.ParcelFileDescriptor", "android.os.IBinder",
+                    "java.os.FileDescriptor", "java.io.FileDescriptor", "android.os.ParcelableHolder", "Bundle", "android.os.Bundle", "Intent", "Uri", "Object",
+                ]);
+                return Ty::custom(n);
+            }
             if !customs.is_empty() && rng.chance(2, 3) {
                 Ty::Custom(rng.pick(customs).clone())
             } else {
@@ -429,6 +448,16 @@ pub fn item(rng: &mut Rng, cfg: &GenCfg) -> Item {
             ItemKind::Enum => enum_elem(rng, cfg),
         });
     }
+    if kind == ItemKind::Interface && rng.chance(1, 12) {
+        // the versioning meta methods exactly as AIDL tools declare them
+        let metas: [(&str, Ty); 2] = [("getInterfaceVersion", Ty::Prim("int".into())), ("getInterfaceHash", Ty::Str)];
+        for (n, t) in metas {
+            if rng.chance(2, 3) {
+                let at = rng.below(members.len() + 1);
+                members.insert(at, Member::Method { anns: vec![], oneway: rng.chance(1, 6), ret: t, name: n.into(), args: vec![], args_trailing_comma: false, code: if rng.chance(1, 4) { Some(rng.pick_str(&["16777214", "16777213"]).to_string()) } else { None }, pre: Pre::default() });
+            }
+        }
+    }
     if cfg.repeat_method_names && rng.chance(1, 3) {
         // names collide on purpose: between methods, between constants and methods / fields, between enum elements,
         // between the arguments of one method, with the item's own name
@@ -576,7 +605,15 @@ fn doc_header(rng: &mut Rng, cfg: &GenCfg) -> Doc {
     let nd = rng.below(cfg.max_declared + 1);
     Doc {
         package: qualified(rng, 1, 4),
-        imports: (0..ni).map(|_| qualified(rng, 2, 4)).collect(),
+        imports: (0..ni)
+            .map(|_| {
+                if rng.chance(1, 6) {
+                    rng.pick_str(REAL_WORLD_IMPORTS).split('.').map(|x| x.to_string()).collect()
+                } else {
+                    qualified(rng, 2, 4)
+                }
+            })
+            .collect(),
         declared: (0..nd).map(|_| Declared { anns: annotations(rng, 1, 6), segs: qualified(rng, 1, 3) }).collect(),
         item: Item { kind: ItemKind::Parcelable, anns: vec![], oneway: false, name: "X".into(), members: vec![], trailing_comma: false, pre: Pre::default() },
     }
